@@ -94,6 +94,7 @@ func genConfig(t *rapid.T) Config {
 		cfg.Crashes = append(cfg.Crashes, cr)
 	}
 	cfg.RPCErrPct = []int{0, 0, 1, 3}[Pick(t, "rpcErr", 4)]
+	cfg.WriteErrPct = []int{0, 0, 3, 10}[Pick(t, "sendErr", 4)]
 	cfg.EvtPct = []int{0, 0, 5, 15}[Pick(t, "evtPct", 4)]
 	cfg.HoldPct = []int{0, 0, 10, 30}[Pick(t, "holdPct", 4)]
 	cfg.FaultBlocks = rapid.IntRange(20, 300).Draw(t, "faultBlocks")
@@ -160,7 +161,7 @@ func TestDeploy(t *testing.T) {
 			r.Count("converged")
 		}
 		// fingerprint: configuration class + the order of lifecycle events
-		r.Tok(fmt.Sprintf("n%d", cfg.N), fmt.Sprintf("late%d crash%d rpc%d evt%d hold%d upg%v", len(cfg.Late), len(cfg.Crashes), cfg.RPCErrPct, cfg.EvtPct, cfg.HoldPct, cfg.Upgrade), fmt.Sprintf("conv=%v", res.Converged))
+		r.Tok(fmt.Sprintf("n%d", cfg.N), fmt.Sprintf("late%d crash%d rpc%d send%d evt%d hold%d upg%v", len(cfg.Late), len(cfg.Crashes), cfg.RPCErrPct, cfg.WriteErrPct, cfg.EvtPct, cfg.HoldPct, cfg.Upgrade), fmt.Sprintf("conv=%v", res.Converged))
 		for _, l := range res.Log {
 			if strings.Contains(l, "CRASH") || strings.Contains(l, "START") || strings.Contains(l, "CONTRACT") || strings.Contains(l, "NOTARY ROLE") || strings.Contains(l, "RERUN") {
 				f := strings.Fields(l)
